@@ -83,6 +83,10 @@ pub fn zip_history(cx: &mut Ctx, ops: &[(u32, Vec<u64>)]) {
             Err(msg) => { if must_refuse == Some(false) { cx.sum.fail(cell, class, cj.clone(), &format!("{} {:?} on {} elements panicked: {}", ZIP_OPS[*op as usize], a, n, msg)); } }
         }
         if let Some(d) = bad { cx.sum.fail(cell, class, cj.clone(), &d); }
+        if !super::min0_carries_last_load(a_.z.inner()) || !super::min0_carries_last_load(b_.z.inner()) {
+            cx.sum.fail(cell, class, cj.clone(), &format!("after {} {:?}: the allocation of {} bytes does not carry the 8-byte load of the last of {} fields of {} bits", ZIP_OPS[*op as usize], a, a_.z.inner().mem_size(), a_.z.size(), a_.z.uintbits()));
+            return; // reading on would be undefined behaviour
+        }
         if a_.z.size() != a_.sh.len() || a_.z.is_empty() != a_.sh.is_empty() { cx.sum.fail(cell, class, cj.clone(), &format!("size {} but a Vec holds {}", a_.z.size(), a_.sh.len())); return; }
     }
 }
@@ -185,6 +189,7 @@ pub fn big_case(cx: &mut Ctx, c: &Value) {
         for b in [1usize << 12, 1 << 13, 1 << 16, 1 << 20, 65535 * 8 / bits.max(1) as usize, (1 << 19) / bits.max(1) as usize] { for d in 0..6 { if b + d >= 3 && b + d - 3 < n { p.push(b + d - 3); } } }
         for _ in 0..400 { if n > 0 { p.push(r.below(n as u64) as usize); } } p.sort(); p.dedup(); p };
     let cj = c.clone();
+    let t0 = std::time::Instant::now();
     let r: Result<Option<String>, String> = guarded(|| -> Option<String> {
         match cont.as_str() {
             "min0" => {
@@ -195,6 +200,7 @@ pub fn big_case(cx: &mut Ctx, c: &Value) {
                 for &x in &src[half..] { v.push_back(x.max(mn) - mn); }
                 let _ = mn2;
                 v.shrink_to_fit();
+                if !super::min0_carries_last_load(&v) { return Some(format!("after shrink_to_fit the allocation of {} bytes does not carry the 8-byte load of the last of {} fields of {} bits", v.mem_size(), v.size(), v.uintbits())); }
                 if v.size() != n { return Some(format!("size {} want {}", v.size(), n)); }
                 for &i in &probe { let want = src[i].max(mn) - mn; if v.get(i) != want { return Some(format!("element {} reads back {}, stored {}", i, v.get(i), want)); }
                     if i + 1 < n { let w2 = src[i + 1].max(mn) - mn; if v.get2(i) != [want, w2] { return Some(format!("get2({}) = {:?}, stored [{}, {}]", i, v.get2(i), want, w2)); } } }
@@ -239,6 +245,7 @@ pub fn big_case(cx: &mut Ctx, c: &Value) {
                 match cont.as_str() { "intvec_u8" => iv!(u8, from_slice), "intvec_u16" => iv!(u16, from_slice), "intvec_i32" => iv!(i32, from_slice_bulk_simd), _ => iv!(u64, from_slice) } }
         }
     });
+    if std::env::var("C09_LOUD").is_ok() { eprintln!("big {} {:?}", c, t0.elapsed()); }
     match r { Err(p) => cx.sum.fail(cell, None, cj, &format!("panicked: {}", p)), Ok(Some(d)) => cx.sum.fail(cell, None, cj, &d), Ok(None) => {} }
 }
 
@@ -247,14 +254,12 @@ pub fn gen_big(cx: &mut Ctx, r: &mut Rng) {
     let sizes = [65535usize, 65536, 65537, (1 << 20) + 1];
     for (k, cont) in ["min0", "zip", "uintvector", "sorted", "intvec_u8", "intvec_u16", "intvec_i32", "intvec_u64"].iter().enumerate() {
         for (j, &n) in sizes.iter().enumerate() {
-            // the largest size once per container kind and run, on a rotating shape
-            if n > (1 << 20) && (k as u64 + seed) % 3 != 0 { continue; }
             let kinds: &[u64] = match *cont { "sorted" => &[1, 2], "uintvector" => &[0, 3, 5, 1], "min0" | "zip" => &[0, 5], "intvec_u8" => &[0, 3, 5], _ => &[0, 1, 2, 4, 5] };
             let kind = kinds[(j + k + seed as usize) % kinds.len()];
             let bits: u32 = match *cont { "intvec_u8" => *r.pick(&[3u32, 7, 8]), "intvec_u16" => *r.pick(&[9u32, 15, 16]), "uintvector" | "intvec_i32" => *r.pick(&[1u32, 13, 17, 31]),
                 "sorted" => 9, "min0" | "zip" => *r.pick(&[1u32, 7, 13, 17, 31, 33, 57]), _ => *r.pick(&[1u32, 17, 33, 47, 48, 63]) };
             // UintVector recompresses everything every 64 pushes: keep the pushed tail short there (big_case pushes 130)
-            let n = if cont.starts_with("intvec") && kind == 1 && n > (1 << 17) { (1 << 17) + 1 } else { n }; // a non-uniform delta vector is read in O(index)
+            let n = if ((cont.starts_with("intvec") && kind == 1) || (*cont == "uintvector" && kind == 3)) && n > (1 << 17) { (1 << 17) + 1 } else { n }; // a run-length vector is recompressed in O(n * runs) // a non-uniform delta vector is read in O(index)
             big_case(cx, &json!({"cell": "big", "container": cont, "kind": kind, "n": n, "seed": seed, "bits": bits}));
         }
     }
